@@ -49,10 +49,13 @@ def compare(rep, exe, plans, label="expand"):
         rep.count(label + ":compared")
         for fi, (fam, mv) in enumerate(zip(d.families, v[1])):
             # helper trait (trait mode)
-            if p.mode == "trait":
+            if mv[0][0] == "unmodelled":
+                rep.count(label + ":helper-trait-unmodelled")
+            else:
                 want = fam["helper"]
                 got = from_sx(mv[0][1]) if mv[0][0] == "some" else None
                 w = want[3][0] if want[1] == "Some" else None
+                rep.count(label + ":helper-trait-compared")
                 if got != w:
                     rep.disagreements.append({**cj, "family": fi, "differs_in": "helper trait",
                                               "first_difference": list(tref.first_diff(w, got) or [])[-6:] if (w and got) else "missing"})
@@ -72,7 +75,7 @@ def compare(rep, exe, plans, label="expand"):
                                           "impl_tokens": [t for _, t in fam["helpers"]][:3]})
                 break
             # main impl (trait mode)
-            if len(mv) > 2 and p.mode == "trait":
+            if len(mv) > 2:
                 mm = mv[2]
                 want = fam["main"]
                 w = want[3][0] if want[1] == "Some" else None
@@ -81,6 +84,10 @@ def compare(rep, exe, plans, label="expand"):
                 elif mm[0] == "panic":
                     rep.disagreements.append({**cj, "family": fi, "differs_in": "main impl: model panics"})
                     break
+                elif mm[0] == "absent":
+                    if w is not None:
+                        rep.disagreements.append({**cj, "family": fi, "differs_in": "main impl: model generates none"})
+                        break
                 else:
                     got = from_sx(mm[1])
                     rep.count(label + ":main-impl-compared")
